@@ -657,7 +657,7 @@ func runC01(cfg *vh.Config) error {
 	} {
 		er.roundTrip("non-finite-float", full, m.ProtoReflect(), flats[full])
 	}
-	for i := 0; i < cfg.Scale(100, 3000); i++ {
+	for i := 0; i < cfg.Scale(100, 1500); i++ {
 		t := pick()
 		g := &msgGen{r: r, maxDepth: r.Range(1, 3), fieldPct: vh.Pick(r, []int{10, 30, 60}), maxEntries: r.Range(1, 3), nonFinite: true}
 		m := t.New()
